@@ -111,6 +111,31 @@ Proof.
       split; [cbn; lia|right; now exists ds0, d].
 Qed.
 
+(* explicit form for a crash after one or more rollovers: the metadata cursor is
+   (file N, offset len d) while the disk ends in a later file whose length [len z]
+   is unrelated to it (in particular smaller); the comparison is lexicographic,
+   the later files are deleted and file N is cut back to the cursor *)
+Lemma reconcile_after_rollover ds0 d suf more z :
+  len d <= max -> small ((d ++ suf) :: more ++ [z]) ->
+  reconcile (map Some (ds0 ++ (d ++ suf) :: more ++ [z])) (N.of_nat (length ds0), len d) = Ok (active ds0 d).
+Proof.
+  intros Ho Hs.
+  assert (Hz : len z < 4294967296).
+  { unfold small in Hs. change ((d ++ suf) :: more ++ [z]) with (((d ++ suf) :: more) ++ [z]) in Hs.
+    apply Forall_app in Hs. destruct Hs as [_ Hs]. now inversion Hs. }
+  assert (Hscan : scan_cursor (map Some (ds0 ++ (d ++ suf) :: more ++ [z]))
+                  = (N.of_nat (length ds0 + length (more ++ [z])), len z)).
+  { change (ds0 ++ (d ++ suf) :: more ++ [z]) with (ds0 ++ ((d ++ suf) :: more) ++ [z]).
+    rewrite app_assoc, scan_cursor_some, u32_small by exact Hz.
+    rewrite !app_length. cbn [length]. f_equal. f_equal. lia. }
+  unfold reconcile. rewrite Hscan. cbn [fst snd].
+  assert (Hlt : cursor_lt (N.of_nat (length ds0), len d) (N.of_nat (length ds0 + length (more ++ [z])), len z) = true).
+  { unfold cursor_lt. cbn [fst snd]. apply orb_true_iff. left. apply N.ltb_lt.
+    rewrite app_length. cbn [length]. lia. }
+  rewrite Hlt. rewrite rollback_spec by (exact (cursor_lt_neq _ _ _ _ Hlt)).
+  rewrite truncate_prefix. cbn [s_file s_off]. rewrite cursor_lt_irrefl'. reflexivity.
+Qed.
+
 (* transitivity of directory extension through a clean intermediate store *)
 Lemma dext_trans st st2 fs : good_store st2 -> dext st (s_files st2) -> dext st2 fs -> dext st fs.
 Proof.
